@@ -77,6 +77,12 @@ CHECKS = {
          'lattice inputs only; reach clause is an upper bound only; F10/F16 signatures mask their dispatch classes', 'denotational TLA+ spec, exhaustive enumeration, replay, TLC trace validation of the result relation', '5 C16'),
  'C18': ('exploration', 'measurement queries of every live handle of TLC-generated lattice programs compared with Lattice.tla (cells, exposed faces, '
          'extent, slices, shadow, components) and with sums over the export', 'lattice regime; MinGap/general position not covered yet', T_REPLAY, '5 C18'),
+ 'C19': ('model_checking', 'Refine.tla: TLC enumerates every ordered edge-division triple/quadruple up to the bound (the cache key space of the subdivision patterns) and small lattice CSG programs, '
+         'checks the tiling predicate on exact reference tilings and on damaged ones, and evaluates the same TLA+ predicate on the partitions returned by the real Partition/Reindex code (hook). '
+         'Refine, RefineToLength, RefineToTolerance, Simplify and SetTolerance are replayed through the public API on the enumerated lattice solids and judged by independent oracles '
+         '(winding number at cell centres, closed 2-manifold with every vertex referenced, exact vertex retention, point-to-surface distance, n^2 count, tolerance floor).',
+         'driver classifies barycentric points in double precision; with tangents only retention/manifoldness/finiteness are decided; F8 signature masks its class',
+         'explicit TLA+ spec, TLC exhaustive enumeration, driver replay, TLC trace validation', '5 C19'),
 }
 NA = {}
 
